@@ -201,6 +201,24 @@ Proof.
   eapply WInv_upd; eauto. apply HS. eapply live_SOK; eauto.
 Qed.
 
+Lemma handle_est_abort_ok w nid fseid o e : WInv w -> step_ok (handle_est_abort w nid fseid o e).
+Proof.
+  intros HI. unfold handle_est_abort.
+  destruct nid as [| |id]; try (apply step_ok_same; assumption).
+  destruct (alookup id (w_rnodes w)) as [ref|] eqn:Er; [|apply step_ok_same; assumption].
+  destruct fseid as [| |rid]; try (apply step_ok_same; assumption).
+  destruct (rnodes_ref_valid _ _ _ HI Er) as [n Hn].
+  destruct (est_alloc_spec w rid ref n HI Hn) as [w2 [s [Ea AP]]].
+  unfold est_alloc in Ea. destruct (new_sess w rid ref) as [[w1 s1]|f]; [|discriminate].
+  inversion Ea; subst s1. clear Ea. rewrite H0. clear H0 w1.
+  pose proof (ap_inv _ _ _ _ _ AP) as HI2. pose proof (ap_live _ _ _ _ _ AP) as HL2.
+  destruct (run_categories e o est_order (mkCtx s (w_dp w2) [])) as [[c rs]|] eqn:Ec; [|apply step_ok_same; assumption].
+  apply run_categories_good in Ec. cbn [fst] in Ec. destruct Ec as [[Fl Fr Fn Fo _] HS]. cbn [c_s c_dp] in *.
+  rewrite (put_slot_upd w2 (s_lid s) s (c_s c) (c_dp c) HL2 Fl).
+  apply step_ok_same.
+  eapply WInv_upd; eauto. apply HS. eapply live_SOK; eauto.
+Qed.
+
 (* ---------------------------------------------------------------- modification *)
 
 Lemma handle_mod_ok w peer seq seid nid o e : WInv w -> step_ok (handle_mod w peer seq seid nid o e).
@@ -240,6 +258,39 @@ Proof.
       * apply SOK_urr_rel; auto. apply HS. eapply live_SOK; eauto.
       * intros r Hr. apply Fo. congruence.
   - apply step_ok_send_rsp'. assumption.
+  - exfalso. eapply lookup_no_fault; eauto.
+Qed.
+
+Lemma handle_mod_abort_ok w seid nid o e : WInv w -> step_ok (handle_mod_abort w seid nid o e).
+Proof.
+  intros HI. unfold handle_mod_abort.
+  destruct (lookup (w_slots w) seid) as [[s|]|f] eqn:El.
+  - apply lookup_found in El.
+    assert (HI1 : WInv (match nid with IeVal id => update_node_id w (s_node s) id | _ => w end)).
+    { destruct nid; auto. destruct (wi_node w HI _ _ El) as [n [Hn _]]. eapply update_node_id_inv; eauto. }
+    assert (HL1 : live (match nid with IeVal id => update_node_id w (s_node s) id | _ => w end) seid s).
+    { destruct nid; auto. unfold update_node_id. destruct (nth_error (w_heap w) (s_node s)); exact El. }
+    assert (Hdp : w_dp (match nid with IeVal id => update_node_id w (s_node s) id | _ => w end) = w_dp w).
+    { destruct nid; auto. unfold update_node_id. destruct (nth_error (w_heap w) (s_node s)); reflexivity. }
+    assert (Hlid : s_lid s = seid) by (eapply live_lid; eauto).
+    destruct nid as [| |id]; [|apply step_ok_same; assumption|].
+    + set (w1 := w) in *.
+      destruct (run_categories e o mod_order (mkCtx s (w_dp w1) [])) as [[c rs]|] eqn:Ec; [|apply step_ok_same; assumption].
+      apply run_categories_good in Ec. cbn [fst] in Ec. destruct Ec as [[Fl Fr Fn Fo _] HS]. cbn [c_s c_dp] in *.
+      rewrite (put_slot_upd w1 seid s (c_s c) (c_dp c) HL1) by congruence.
+      apply step_ok_same. eapply WInv_upd; eauto.
+      * congruence.
+      * apply HS. eapply live_SOK; eauto.
+      * intros r Hr. apply Fo. congruence.
+    + set (w1 := update_node_id w (s_node s) id) in *.
+      destruct (run_categories e o mod_order (mkCtx s (w_dp w1) [])) as [[c rs]|] eqn:Ec; [|apply step_ok_same; assumption].
+      apply run_categories_good in Ec. cbn [fst] in Ec. destruct Ec as [[Fl Fr Fn Fo _] HS]. cbn [c_s c_dp] in *.
+      rewrite (put_slot_upd w1 seid s (c_s c) (c_dp c) HL1) by congruence.
+      apply step_ok_same. eapply WInv_upd; eauto.
+      * congruence.
+      * apply HS. eapply live_SOK; eauto.
+      * intros r Hr. apply Fo. congruence.
+  - apply step_ok_same. assumption.
   - exfalso. eapply lookup_no_fault; eauto.
 Qed.
 
@@ -391,6 +442,16 @@ Proof.
   - apply handle_del_ok. assumption.
 Qed.
 
+Lemma recv_request_abort_ok w peer seq m e : WInv w -> step_ok (recv_request_abort w peer seq m e).
+Proof.
+  intros HI. unfold recv_request_abort.
+  destruct (klookup (peer, seq) (w_rx w)) as [[p|]|]; try (apply step_ok_same; assumption).
+  pose proof (WInv_set_rx (kset (peer, seq) None (w_rx w)) w HI) as HI0.
+  destruct m; try (apply step_ok_same; assumption).
+  - apply handle_est_abort_ok. assumption.
+  - apply handle_mod_abort_ok. assumption.
+Qed.
+
 Lemma handle_report_rsp_ok w peer hdr t e : WInv w -> step_ok (handle_report_rsp w peer hdr t e).
 Proof.
   intros HI. unfold handle_report_rsp. destruct (hdr =? 0).
@@ -485,8 +546,10 @@ Qed.
 
 Theorem step_preserves_inv w ev : WInv w -> step_ok (step w ev).
 Proof.
-  intros HI. destruct ev as [peer seq m e|seid items e|peer seq|peer seq]; cbn [step].
+  intros HI. destruct ev as [peer seq m e|peer seq m e|seid items e|peer seq|peer seq]; cbn [step].
   - destruct (is_request m); [apply recv_request_ok | apply recv_response_ok]; assumption.
+  - destruct (is_request m); [apply recv_request_abort_ok; assumption|].
+    destruct (klookup (peer, seq) (w_tx w)); apply step_ok_same; [apply WInv_set_tx|]; assumption.
   - apply serve_report_ok. assumption.
   - unfold timeout_tx. destruct (klookup (peer, seq) (w_tx w)) as [t|]; [|apply step_ok_same; assumption].
     destruct (tx_count t <? w_maxretrans w); apply step_ok_same; apply WInv_set_tx; assumption.
